@@ -197,6 +197,29 @@ def r05_4(ctx):
     ctx.decide('R05.4', rf.qual, 'truncation zeroes the rows of the active (and, on the top level, deactivated) functions of level k+1', ok or None, rf.node)
     ok = 'act_indices[lv]=np.concatenate((act_indices[lv],deact_indices))' in t and 'blocks.append(P[:,act_indices[k]])' in t and 'blocks.reverse()' in t
     ctx.decide('R05.4', rf.qual, 'column blocks per level in canonical order (coarse to fine)', ok or None, rf.node)
+    # semantic: the functions a level is truncated against are the functions that represent that level in the output:
+    #   Pj[X[k+1], :] = 0      and      blocks.append(P[:, Y[k]])      must use the same per-level index list (X is Y)
+    zero = [s for s in own_nodes(rf.node) if isinstance(s, ast.Assign) and isinstance(s.targets[0], ast.Subscript)
+            and src(s.targets[0].value) == 'Pj' and isinstance(s.value, ast.Constant) and s.value.value == 0]
+    sel = [c for c in ast.walk(rf.node) if isinstance(c, ast.Call) and src(c.func) == 'blocks.append' and c.args and isinstance(c.args[0], ast.Subscript)]
+    if zero and sel:
+        def index_list_name(sub):
+            sl = sub.slice
+            el = sl.elts if isinstance(sl, ast.Tuple) else [sl]
+            for e in el:
+                if isinstance(e, ast.Subscript) and isinstance(e.value, ast.Name):
+                    return e.value.id, src(e.slice).replace(' ', '')
+            return None, None
+        X, xi = index_list_name(zero[0].targets[0])
+        Y, yi = index_list_name(sel[0].args[0])
+        ok = None if X is None or Y is None else (X == Y)
+        ctx.decide('R05.4', rf.qual, 'rows zeroed by truncation: %s[%s]; column block of a level: %s[%s]' % (X, xi, Y, yi), ok, zero[0],
+                   'coarse functions are truncated against exactly the functions that make up the next level of the (virtual) basis; on an '
+                   'intermediate virtual level that includes the deactivated functions of the top level', definite=True)
+        ctx.decide('R05.4', rf.qual, 'truncation addresses level %s while processing level k' % xi, (xi == 'k+1') if xi else None, zero[0],
+                   'level k is truncated against level k+1', definite=True)
+    else:
+        ctx.undecided('R05.4', rf.qual, 'truncation / block selection statements', rf.node, 'not recognised')
     kp = ctx.prog.func('pyiga.utils.kron_partial')
     ctx.met('R05.4', kp.qual, 'kron_partial present (rows/restrict semantics checked under C15)', kp.node, nontrivial=False)
 
